@@ -258,6 +258,7 @@ type handlerSpec struct {
 	party    string
 	cont     bool // continue_pipeline_on_error
 	cond     int  // 0 none, 1 true, 2 false, 3 evaluation error
+	form     int  // how the condition is written (index into condForms)
 	alwaysOK int  // 1 always succeeds, -1 always fails, 0 depends on party
 }
 
@@ -276,6 +277,15 @@ var finalizerPool = []handlerSpec{
 type ehSpec struct {
 	id   string
 	cond int
+	form int
+}
+
+// the same three outcomes written against different parts of the request view: the method, and the value captured
+// from the path (/svc/:id is always requested as /svc/1)
+var condForms = [][]string{
+	conds,
+	{"", `Request.URL.Captures.id == "1"`, `Request.URL.Captures.id != "1"`, `Request.URL.Captures.nope == "1"`},
+	{"", `"id" in Request.URL.Captures && Request.URL.Captures.id == "1"`, `"id" in Request.URL.Captures && Request.URL.Captures.id != "1"`, `Request.URL.Captures.nope == "1"`},
 }
 
 var conds = []string{"", `Request.Method != "PATCH"`, `Request.Method == "PATCH"`, `Request.URL.Path.size() / (Request.URL.Path.size() - Request.URL.Path.size()) == 1`}
@@ -303,7 +313,7 @@ func (p pipeline) yaml(id, path string, proxy bool) string {
 	step := func(h handlerSpec) {
 		fmt.Fprintf(&b, "    - %s: %s\n", h.typ, h.id)
 		if h.cond != 0 {
-			fmt.Fprintf(&b, "      if: %q\n", conds[h.cond])
+			fmt.Fprintf(&b, "      if: %q\n", condForms[h.form][h.cond])
 		}
 	}
 	for _, h := range p.handlers {
@@ -317,7 +327,7 @@ func (p pipeline) yaml(id, path string, proxy bool) string {
 		for _, e := range p.ehs {
 			fmt.Fprintf(&b, "    - error_handler: %s\n", e.id)
 			if e.cond != 0 {
-				fmt.Fprintf(&b, "      if: %q\n", conds[e.cond])
+				fmt.Fprintf(&b, "      if: %q\n", condForms[e.form][e.cond])
 			}
 		}
 	}
@@ -370,7 +380,7 @@ func genPipeline(s *simcore.Source, c04Profile bool) pipeline {
 	for i := 0; i < nh; i++ {
 		h := simcore.Pick(s, subjectHandlerPool, "handler")
 		if s.Draw(3, "cond?") == 2 {
-			h.cond = 1 + s.Draw(3, "cond")
+			h.cond, h.form = 1+s.Draw(3, "cond"), s.Draw(3, "cond-form")
 		}
 		p.handlers = append(p.handlers, h)
 	}
@@ -378,7 +388,7 @@ func genPipeline(s *simcore.Source, c04Profile bool) pipeline {
 	for i := 0; i < nf; i++ {
 		h := simcore.Pick(s, finalizerPool, "finalizer")
 		if s.Draw(3, "cond?") == 2 {
-			h.cond = 1 + s.Draw(3, "cond")
+			h.cond, h.form = 1+s.Draw(3, "cond"), s.Draw(3, "cond-form")
 		}
 		p.fins = append(p.fins, h)
 	}
@@ -386,7 +396,7 @@ func genPipeline(s *simcore.Source, c04Profile bool) pipeline {
 	for i := 0; i < ne; i++ {
 		e := ehSpec{id: simcore.Pick(s, []string{"default", "redirect", "www"}, "error-handler")}
 		if s.Draw(2, "eh-cond?") == 1 {
-			e.cond = 1 + s.Draw(3, "eh-cond")
+			e.cond, e.form = 1+s.Draw(3, "eh-cond"), s.Draw(3, "cond-form")
 		}
 		p.ehs = append(p.ehs, e)
 	}
